@@ -34,6 +34,7 @@ VARIANTS = {
     "dflt":   dict(cflags=SAN),
     "dfuzz":  dict(cflags=FUZZ),
     "extra":  dict(cflags=SAN, extra_cflags="-DEAV_EXTRA"),
+    "efuzz":  dict(cflags=FUZZ, extra_cflags="-DEAV_EXTRA"),
     "plain":  dict(cflags=PLAIN),
     "pextra": dict(cflags=PLAIN, extra_cflags="-DEAV_EXTRA"),
     "tsan":   dict(cflags=TSAN),
